@@ -676,35 +676,97 @@ def rule_rdb_db(ctx, R):
 # ---------------------------------------------------------------------------------------
 # C10
 
+def _up_prov(ctx, body, op, depth=0):
+    """(fields, call names) on the provenance of an operand, following closure captures up into
+    the enclosing functions"""
+    fields = set(); calls = set()
+    if op_is_const(op):
+        return fields, calls
+    P = prov.operand_origins(body, op)
+    fields |= set(P.fields)
+    calls |= {c for c, _ in P.via} | {r[1] for r in P.roots if r[0] == "call"}
+    if depth < 4:
+        for r in P.roots:
+            if r[0] == "upvar":
+                cap = shared.capture_operand(ctx, body, r)
+                if cap:
+                    f2, c2 = _up_prov(ctx, cap[0], cap[1], depth + 1)
+                    fields |= f2; calls |= c2
+    return fields, calls
+
+
+_TMP_DERIV = r"Path(Buf)?::with_extension|with_file_name|PathBuf::push|Path(Buf)?::join"
+
+
+def _attached_after_success_of(ctx, top, holder_body, site_body, earlier):
+    """is `site_body` (a closure) attached by Result::and_then / Option::and_then / map to a
+    value that exists only when one of the `earlier` (body, block) calls succeeded?  The
+    receiver of the attaching adaptor derives from the earlier call's result, or from another
+    adaptor whose closure contains the earlier call (a success chain)."""
+    parent = ctx.prog.bodies.get(site_body.encl) if site_body.encl else None
+    if parent is None:
+        return False
+    for i, t in parent.calls():
+        if site_body.fn not in (t.get("clos") or ()) or not re.search(r"(Result|Option)::<.*>::(and_then|map)(::<.*>)?$", t["f"] or "") or not t["a"] or op_is_const(t["a"][0]):
+            continue
+        P = prov.operand_origins(parent, t["a"][0], deep=True)
+        blocks = {r[2] for r in P.roots if r[0] == "call"} | {bb for _, bb in P.via}
+        for (eb, ei) in earlier:
+            if eb is parent and ei in blocks:
+                return True
+            # earlier call sits in a closure attached to an adaptor on the receiver chain
+            for x in blocks:
+                tt = parent.term(x)
+                if tt["k"] == "call" and eb.fn in (tt.get("clos") or ()) and re.search(r"(Result|Option)::<.*>::(and_then|map)(::<.*>)?$", tt["f"] or ""):
+                    return True
+    return False
+
+
 def rule_save_tmp(ctx, R):
     b = ctx.prog.need(EN + "save")
-    ws = [(i, t) for i, t in b.calls() if callee(t) == EN + "write_snapshot"]
-    ren = [(i, t) for i, t in b.calls() if re.search(r"^std::fs::rename", t["f"] or "")]
+    tree = shared.closure_tree(ctx, b)
+    ws = [(body, i, t) for body in tree for i, t in body.calls() if callee(t) == EN + "write_snapshot"]
+    ren = [(body, i, t) for body in tree for i, t in body.calls() if re.search(r"^std::fs::rename", t["f"] or "")]
     R.floor("write_snapshot_calls", len(ws)); R.floor("rename_calls", len(ren))
     if not ws or not ren:
-        R.finding(b.fn, "structure", "save() does not consist of write_snapshot(temp) followed by rename(temp, final)", b.loc()); return
-    wi, wt = ws[0]; ri, rt = ren[0]
-    # temp path: derived from file_path through with_extension / a different name
-    ptmp = prov.operand_origins(b, wt["a"][-1])
-    tmp_ok = ptmp.has_call(r"Path(Buf)?::with_extension|with_file_name|PathBuf::push|join")
-    R.inst(b.fn, "temp-path", {"write_target_derived_by": [shared.short_callee(c) for c, _ in ptmp.via if "with_extension" in c or "join" in c][:2], "is_temp": tmp_ok})
+        R.broken.append("save() is not recognised as write_snapshot(temp) followed by rename(temp, final): write_snapshot calls %d, rename calls %d in its closure tree" % (len(ws), len(ren))); return
+    wb, wi, wt = ws[0]; rb, ri, rt = ren[0]
+    w = ctx.prog.need(EN + "write_snapshot")
+    # files opened for writing: in save's closure tree and in write_snapshot
+    opens = [(body, i, t) for body in tree + [w] for i, t in body.calls() if re.search(r"OpenOptions::open|File::create|File::options", t["f"] or "") and not re.search(r"File::options", t["f"] or "")]
+    # temp path: what is written (the path handed to write_snapshot, or the file opened in save and
+    # handed to it) derives from file_path through with_extension / a different name
+    tmp_ok = False; via = []
+    for body, i, t in opens:
+        if body is w:
+            continue
+        f_, c_ = _up_prov(ctx, body, t["a"][-1])
+        if any(re.search(_TMP_DERIV, c) for c in c_):
+            tmp_ok = True; via = [shared.short_callee(c) for c in c_ if re.search(_TMP_DERIV, c)][:2]
+    f_, c_ = _up_prov(ctx, wb, wt["a"][-1])
+    if any(re.search(_TMP_DERIV, c) for c in c_):
+        tmp_ok = True; via = [shared.short_callee(c) for c in c_ if re.search(_TMP_DERIV, c)][:2]
+    R.inst(b.fn, "temp-path", {"write_target_derived_by": via, "is_temp": tmp_ok})
     if not tmp_ok:
-        R.finding(b.fn, "write-target-is-final", "write_snapshot is handed the dump path itself, not a temporary path: a failed or interrupted save destroys the previous dump", b.loc(wi))
+        R.finding(b.fn, "write-target-is-final", "write_snapshot is handed the dump path itself, not a temporary path: a failed or interrupted save destroys the previous dump", wb.loc(wi))
     # rename(from=temp, to=final)
-    pf = prov.operand_origins(b, rt["a"][0]); pt = prov.operand_origins(b, rt["a"][1])
-    from_tmp = pf.has_call(r"with_extension|with_file_name|join") ; to_final = not pt.has_call(r"with_extension|with_file_name|join") and any(f.endswith("RdbEngine.file_path") for f in pt.fields)
+    ff, fc = _up_prov(ctx, rb, rt["a"][0]); tf, tc = _up_prov(ctx, rb, rt["a"][1])
+    from_tmp = any(re.search(_TMP_DERIV, c) for c in fc)
+    to_final = not any(re.search(_TMP_DERIV, c) for c in tc) and any(f.endswith("RdbEngine.file_path") for f in tf)
     R.inst(b.fn, "rename-direction", {"from_temp": from_tmp, "to_final": to_final})
     if not (from_tmp and to_final):
-        R.finding(b.fn, "rename-direction", "rename does not move the temporary file onto the dump path", b.loc(ri))
+        R.finding(b.fn, "rename-direction", "rename does not move the temporary file onto the dump path", rb.loc(ri))
     # rename only on the success continuation of write_snapshot
-    rs = shared.result_switch(b, wi)
-    ok = rs is not None and all(ri in cfg.fwd(b, [o]) for o in rs["ok"]) and not any(ri in cfg.fwd(b, [f]) for f in rs["fail"]) and cfg.dominates(b, wi, ri)
+    if rb is wb:
+        rs = shared.result_switch(wb, wi)
+        ok = rs is not None and all(ri in cfg.fwd(wb, [o]) for o in rs["ok"]) and not any(ri in cfg.fwd(wb, [f]) for f in rs["fail"]) and cfg.dominates(wb, wi, ri)
+    else:
+        ok = rb.kind == "Closure" and _attached_after_success_of(ctx, b, b, rb, [(wb, wi)])
     R.inst(b.fn, "rename-after-success", {"ok": ok})
     if not ok:
-        R.finding(b.fn, "rename-not-gated-on-write-success", "the rename onto the dump path is reachable without write_snapshot having succeeded", b.loc(ri))
-    # write_snapshot: every success return passes flush()'s success edge; the only file opened is `path`
-    w = ctx.prog.need(EN + "write_snapshot")
-    fl = [(i, t) for i, t in w.calls() if callee(t) == W + "flush"]
+        R.finding(b.fn, "rename-not-gated-on-write-success", "the rename onto the dump path is reachable without write_snapshot having succeeded", rb.loc(ri))
+    # write_snapshot: every success return passes flush()'s success edge
+    fl = [(i, t) for i, t in w.calls() if callee(t) == W + "flush" or re.search(r"<std::io::BufWriter<.*> as std::io::Write>::flush$|<W as std::io::Write>::flush$", t["f"] or "")]
     okret = [i for i, bb in enumerate(w.bbs) for st in bb["s"] if st["k"] == "=" and st["l"]["l"] == 0 and st["r"]["k"] == "agg" and st["r"]["a"] == "std::result::Result::Ok"]
     R.note("flush calls in write_snapshot: %d" % len(fl))
     good = False
@@ -720,30 +782,36 @@ def rule_save_tmp(ctx, R):
     R.inst(w.fn, "flush-before-ok", {"success_returns": len(okret), "dominated_by_flush_success": good})
     if not good:
         R.finding(w.fn, "ok-without-flush", "write_snapshot can return Ok without a successful flush of the buffered writer: a truncated temp file would be renamed over the dump", w.loc())
-    opens = [(i, t) for i, t in w.calls() if re.search(r"OpenOptions::open|File::create|File::open", t["f"] or "")]
-    for i, t in opens:
-        P = prov.operand_origins(w, t["a"][-1])
-        ok = bool(P.params() - {1, 2})
-        R.inst(w.fn, "open-target", {"at": w.loc(i), "is_path_parameter": ok})
+    for body, i, t in opens:
+        if body is w:
+            P = prov.operand_origins(w, t["a"][-1])
+            ok = bool(P.params() - {1, 2})
+        else:
+            f_, c_ = _up_prov(ctx, body, t["a"][-1])
+            ok = any(re.search(_TMP_DERIV, c) for c in c_)
+        R.inst(body.fn, "open-target", {"at": body.loc(i), "is_the_temp_path": ok})
         if not ok:
-            R.finding(w.fn, "open-target:not-parameter", "write_snapshot opens a file other than the path it was given", w.loc(i))
+            R.finding(body.fn, "open-target:not-parameter", "the save path opens a file other than the temporary dump", body.loc(i))
         # open mode: the temp file of an earlier failed / interrupted save may still be there
-        mode = open_mode(ctx, w, i, t)
-        R.inst(w.fn, "open-mode", {"at": w.loc(i), "mode": mode})
+        mode = open_mode(ctx, body, i, t)
+        R.inst(body.fn, "open-mode", {"at": body.loc(i), "mode": mode})
         if mode is None:
-            R.broken.append("open mode of the temp dump at %s not recognised" % w.loc(i))
+            R.broken.append("open mode of the temp dump at %s not recognised" % body.loc(i))
         elif mode.get("create_new"):
-            R.finding(w.fn, "open-mode:create_new", "the temporary dump is opened with create_new(true): the leftover of one failed or interrupted save (save() does not remove it) makes every later SAVE / BGSAVE fail with `File exists` -- a later save no longer works", w.loc(i))
+            R.finding(w.fn, "open-mode:create_new", "the temporary dump is opened with create_new(true): the leftover of one failed or interrupted save (save() does not remove it) makes every later SAVE / BGSAVE fail with `File exists` -- a later save no longer works", body.loc(i))
         elif mode.get("append") or not mode.get("truncate"):
-            R.finding(w.fn, "open-mode:no-truncate", "the temporary dump is opened without truncation: the leftover of an earlier, longer attempt stays behind the new snapshot's end (or the new snapshot is appended to it) and the renamed dump is not a complete, loadable snapshot", w.loc(i))
+            R.finding(w.fn, "open-mode:no-truncate", "the temporary dump is opened without truncation: the leftover of an earlier, longer attempt stays behind the new snapshot's end (or the new snapshot is appended to it) and the renamed dump is not a complete, loadable snapshot", body.loc(i))
+    if not opens:
+        R.broken.append("no file is opened for writing in save() or write_snapshot")
     # who else writes files in the rdb module / renames onto file_path
+    mine = {body.fn for body in tree} | {w.fn}
     for fn, fb in ctx.prog.bodies.items():
-        if not fn.startswith("storage::rdb::") or fn in (w.fn,) or "::tests::" in fn:
+        if not fn.startswith("storage::rdb::") or fn in mine or "::tests::" in fn:
             continue
         for i, t in fb.calls():
             if re.search(r"OpenOptions::(open|write)|File::create|std::fs::write", t["f"] or ""):
                 R.inst(fn, "other-writer")
-                R.finding(fn, "other-file-writer", "%s opens a file for writing outside write_snapshot" % fn, fb.loc(i))
+                R.finding(fn, "other-file-writer", "%s opens a file for writing outside the save path" % fn, fb.loc(i))
 
 
 def open_mode(ctx, b, i, t):
